@@ -48,7 +48,9 @@ def documents(draw: Any, kind: str = 'function', fmt_family: str = 'markup', max
             k = draw(st.sampled_from(['text', 'text', 'em', 'strong', 'code']))
             if out and out[-1]['k'] == k == 'text':
                 k = 'em'
-            out.append({'k': k, 'words': c.words(draw(st.integers(1, 3)))})
+            out.append({'k': k, 'words': c.words(draw(st.integers(1, 3))),
+                        # no blank between this run and the one before it: markup inside a word, markup next to markup
+                        'glue': bool(out) and (k != 'text' or out[-1]['k'] != 'text') and draw(st.integers(0, 3)) == 0})
         return out
 
     def para() -> Dict[str, Any]:
@@ -202,15 +204,19 @@ def pre_blocks(blocks: List[Dict[str, Any]]) -> List[str]:
 # ------------------------------------------------------------------ serialisers
 
 def _inline(runs: List[Dict[str, Any]], fmt: str) -> str:
-    parts = []
-    for r in runs:
+    text = ''
+    for i, r in enumerate(runs):
         w = ' '.join(r['words'])
         k = r['k']
         if fmt == 'epytext':
-            parts.append({'text': w, 'em': 'I{%s}' % w, 'strong': 'B{%s}' % w, 'code': 'C{%s}' % w}[k])
+            piece = {'text': w, 'em': 'I{%s}' % w, 'strong': 'B{%s}' % w, 'code': 'C{%s}' % w}[k]
+            sep = '' if r.get('glue') else ' '
         else:
-            parts.append({'text': w, 'em': '*%s*' % w, 'strong': '**%s**' % w, 'code': '``%s``' % w}[k])
-    return ' '.join(parts)
+            piece = {'text': w, 'em': '*%s*' % w, 'strong': '**%s**' % w, 'code': '``%s``' % w}[k]
+            # reST needs a boundary around inline markup: the escaped blank is one that leaves no trace
+            sep = '\\ ' if r.get('glue') else ' '
+        text += (sep if i else '') + piece
+    return text
 
 
 def _blocks(blocks: List[Dict[str, Any]], fmt: str, indent: int, under: str = '=') -> List[str]:
